@@ -17,6 +17,7 @@ fn dispatch(cmd: &Value) -> Value {
 	let name = cmd["cmd"].as_str().unwrap_or("");
 	match name {
 		"eval" => eval::cmd_eval(cmd),
+		"demand" => eval::cmd_demand(cmd),
 		"parse" => ast::cmd_parse(cmd),
 		"lex" => misc::cmd_lex(cmd),
 		"fmt" => misc::cmd_fmt(cmd),
